@@ -84,7 +84,7 @@ def main(tier):
     c.proof_layer()
     c.ensure_modelrun()
     ov, labels = c.instrument()
-    binary, log = (None, labels) if ov is None else c.build_harness(extra_overlay=ov, pkgs=["c14", "lockstep"])
+    binary, log = (None, labels) if ov is None else c.build_harness(extra_overlay=ov, pkgs=["c14", "segkeyls", "lockstep"])
     if binary is None:
         c.report("C14:build", "instrumented harness does not build against /repo", {"kind": "build", "log": str(log)[-3000:]}, found_input=False)
         return finish(c)
@@ -127,6 +127,14 @@ def main(tier):
     if sres != "ok":
         c.report("C14:segkey:concurrent-exclusion", "SegmentKeysLock: " + sres,
                  {"kind": "stress-run", "result": sres, "how": "h c14-segkey-stress %d %d %d" % (c.seed, rounds, gor)})
+
+    # ---- SegmentKeysLock: statement-granular interleaving model in lock-step (props/C14_segkeyls.v) ----
+    try:
+        import part_segkeyls
+        part_segkeyls.run(c, binary, labels, tier, "c14")
+    except Exception:
+        import traceback
+        c.report("C14:segkeyls:crash", "check part segkeyls crashed", {"kind": "internal", "trace": traceback.format_exc()[-3000:]}, found_input=False)
 
     # ---- SegmentKeysLock: sequential differential ----
     lines = gen_segkey(c, 500 if tier == "quick" else 20000, 40)
